@@ -59,6 +59,10 @@ def mc(ck):
                   required_actions=["TryInit", "HeaderSub", "FetchNext", "BatchOk", "Prune", "Disconnect"], timeout=3000)
         ck.tlc_mc("MC_Syncer", ck.cfg_with("MC_Syncer.cfg", {"N": 6, "AsIsDeviation": "TRUE"}, name="MC_Syncer_asis.cfg"),
                   tag="mc_asis", expect_violation="NoRequestBelowOldHeader")
+        # the composition with the real pruner and daser designs (Node.tla): the repaired guard is sound
+        # because PrunedEdgesAreOld is an invariant of the system
+        ck.tlc_mc("MC_Node", ck.cfg_with("MC_Node.cfg", {"N": 4}), tag="mc_node", timeout=3000,
+                  required_actions=["FetchNext", "ComputeBatch", "RemoveNext"])
     else:
         ck.tlc_mc("MC_Syncer", ck.cfg_with("MC_Syncer.cfg", {"N": n, "EnablePrune": "FALSE", "EnableForeign": "TRUE"}),
                   required_actions=["TryInit", "HeaderSub", "FetchNext", "BatchOk", "BatchForeign", "BatchFail"],
